@@ -325,6 +325,74 @@ def vc_call():
     return obs
 
 
+def vc_argument_c_types():
+    """The element-type check of a kernel call is cffi comparing pointer types (AX-ffi-cast), so it is only as good as the C types the
+    library declares and casts to.  Under contract:
+      Arg.get_c_type      for every scalar type declared in scalar.py (table read from the current source): a by-value argument is declared with the type's
+                          own `_c_type`, a pointer argument with a pointer type, and two different scalar types are never declared with
+                          the same pointer type;
+      dtype_dict          (module table of context_cpu.py, read from the current source; dtype2ctype returns its entries): distinct dtypes
+                          map to distinct C types, no complex / other dtype shares the C type of a real one, and the entry of every dtype
+                          that a scalar type of scalar.py has equals that type's `_c_type` -- so a numpy array and an xobject array of the
+                          same element type are cast to the same pointer type, and arrays of different element types never are."""
+    import ast
+    from pyvc import source as src
+
+    obs = []
+    it = env()
+    vc_argument_c_types.interps = [it]
+    sc = src.module("xobjects/scalar.py")
+    table = {}
+    for name, node in sc.assigns.items():
+        if isinstance(node, ast.Call) and getattr(node.func, "id", None) == "NumpyScalar" and len(node.args) == 2 and all(isinstance(a, ast.Constant) for a in node.args):
+            table[name] = (node.args[0].value, node.args[1].value)
+    it.contract = _contract(CTX, "Arg.get_c_type")
+    ob0 = lambda c, g: it.oblige(State(), "post", c, z3.BoolVal(bool(g)))
+    ob0("scalar_table_found_in_source", len(table) >= 10)
+    results = {}
+    try:
+        for name, (dname, cname) in sorted(table.items()):
+            for pointer in (False, True):
+                at = SymObj("NumpyScalar", {"_c_type": cname, "__name__": name})
+                at.closed = True
+                arg = SymObj("Arg", {"atype": at, "pointer": pointer, "name": "p", "const": False, "factory": None})
+                arg.closed = True
+                for st, out in it.exec_function(it.contract, {"self": arg}):
+                    r = out[1] if out is not None and out[0] == "return" else None
+                    it.oblige(st, "post", f"declared_type_is_the_c_type{'_pointer' if pointer else ''}[{name}]", z3.BoolVal(isinstance(r, str) and (r.rstrip().endswith("*") if pointer else r == cname)))
+                    results[(name, pointer)] = r
+        names = sorted(table)
+        for i, a in enumerate(names):
+            for b in names[i + 1:]:
+                ra, rb = results.get((a, True)), results.get((b, True))
+                ob0(f"different_scalar_types_have_different_pointer_types[{a},{b}]", isinstance(ra, str) and isinstance(rb, str) and ra != rb)
+    except HARNESS_ERRORS as e:
+        vc_argument_c_types.undecided.append(("Arg.get_c_type", f"{type(e).__name__}: {e}"[:160]))
+    cpu = src.module(CPU)
+    node = cpu.assigns.get("dtype_dict")
+    try:
+        dd = ast.literal_eval(node) if node is not None else None
+    except Exception:  # noqa
+        dd = None
+    it.contract = _contract(CPU, "dtype2ctype")
+    if not isinstance(dd, dict):
+        vc_argument_c_types.undecided.append(("dtype_dict", "not a literal table any more"))
+    else:
+        keys = sorted(dd)
+        for i, a in enumerate(keys):
+            for b in keys[i + 1:]:
+                ob0(f"dtype_dict.distinct_dtypes_have_distinct_c_types[{a},{b}]", dd[a] != dd[b])
+        for name, (dname, cname) in sorted(table.items()):
+            if dname in dd:
+                ob0(f"dtype_dict.agrees_with_the_scalar_type[{name}]", dd[dname] == cname)
+        by_c = {c for (d, c) in table.values()}
+        for k in keys:
+            if k not in {d for (d, c) in table.values()}:
+                ob0(f"dtype_dict.other_dtypes_do_not_share_a_scalar_c_type[{k}]", dd[k] not in by_c)
+    obs += it.obligations
+    return obs
+
+
 GROUPS = {}
 
 
@@ -349,7 +417,11 @@ def _group(name, fn, functions):
 
 _group("to_function_arg", vc_to_function_arg, [(CPU, "KernelCpu.to_function_arg"), (CPU, "dtype2ctype")])
 _group("kernel_call", vc_call, [(CPU, "KernelCpu.__call__"), (CTX, "KernelDispatcher.__call__")])
+_group("argument_c_types", vc_argument_c_types, [(CTX, "Arg.get_c_type"), (CPU, "dtype2ctype")])
 
 
 def targets():
     return [("<gen>", g) for g, _ in GROUPS.values()]
+
+
+from . import kernels2_vc  # noqa: E402,F401  (registers the group kernel_declaration: cdef_from_kernel)
